@@ -1914,6 +1914,11 @@ func (vm *Thread) opSetIvarName(nameIndex int) (err value.Value) {
 func (vm *Thread) opSetIvar(index int) {
 	val := vm.popGet()
 	self := vm.selfValue()
+	if self.InstanceVariables() == nil {
+		// the receiver keeps no instance variables (eg. the body of an interface)
+		vm.throw(value.Ref(value.NewCantSetInstanceVariablesOnPrimitiveError(self.Inspect())))
+		return
+	}
 	value.SetInstanceVariable(self, index, val)
 }
 
@@ -1938,7 +1943,13 @@ func (vm *Thread) opGetIvarName(nameIndex int) (err value.Value) {
 // Get the value of an instance variable by name
 func (vm *Thread) opGetIvar(index int) {
 	self := vm.selfValue()
-	val := self.InstanceVariables().Get(index)
+	ivars := self.InstanceVariables()
+	if ivars == nil {
+		// the receiver keeps no instance variables (eg. the body of an interface): nothing has been set
+		vm.push(value.Nil)
+		return
+	}
+	val := ivars.Get(index)
 
 	if val.IsUndefined() {
 		vm.push(value.Nil)
